@@ -153,7 +153,7 @@ func init() {
 	scenarios["C25"] = scenC25
 }
 
-var c23Segs = []string{"", ".", "..", "%2e", "%2e%2e", "%2E%2E", "..%2f", "%2f", "%5c", "\\", "..\\", "%00", "%25", "%2500", "a%2500.txt", "%25%30%30", "%252f", "%252e%252e", "secret", "root", "rootx", "a.txt", "dir", "passwd.txt", "sub.txt", "other.txt", "index.html", "x", "y", "z.txt", "...", ".. ", "%2e%2e%2f", "cache"}
+var c23Segs = []string{"", ".", "..", "%2e", "%2e%2e", "%2E%2E", "..%2f", "%2f", "%5c", "\\", "..\\", "x..", "ab..", "aaaaaaa..", "..x", "%00", "%25", "%2500", "a%2500.txt", "%25%30%30", "%252f", "%252e%252e", "secret", "root", "rootx", "a.txt", "dir", "passwd.txt", "sub.txt", "other.txt", "index.html", "x", "y", "z.txt", "...", ".. ", "%2e%2e%2f", "cache"}
 
 func scenC23(e *Env) func() {
 	p := &c23Plan{Mode: Pick(e, "os", "os", "fsfs"), Rewriter: Pick(e, "none", "none", "vhost", "slashes", "prefix"), Compress: e.Chance(40), CacheRoot: e.Chance(60), Concurrent: e.Chance(40), DiskFaults: e.Chance(15)}
